@@ -19,8 +19,23 @@ def bv(v, w=64):
     return z3.BitVecVal(v, w)
 
 
+class NotAPosition(Exception):
+    pass
+
+
 def span_replay(res):
-    corpus = [b"  abc  ", b"\n (a \"b\" #\\c)\n", b"'x y", b"#(1 2) ;c\n 3", b"(a . b)", b"#u8(1 2) z", b"`(,a ,@b) ", b"  \xce\xbb (\xce\xbb)"]
+    corpus = [b"  abc  ", b"\n (a \"b\" #\\c)\n", b"'x y", b"#(1 2) ;c\n 3", b"(a . b)", b"#u8(1 2) z", b"`(,a ,@b) ", b"  \xce\xbb (\xce\xbb)",
+              b"'  x", b",@  (a  b)", b"`   x", b"( '  x  ,  y )", b"#( a   'b )", b"(a   .   b)", b"  ''  x"]
+
+    def walk(sp):
+        yield sp
+        for k in ("list", "vec"):
+            for c in sp.get(k, []):
+                if "dot" in c:
+                    c = c["dot"]
+                if "s" in c:
+                    for x in walk(c):
+                        yield x
 
     def f(m):
         for text in corpus:
@@ -30,21 +45,24 @@ def span_replay(res):
             if a != b:
                 return {"replayed": True, "observed": {"slice": a, "reader": b},
                         "witness": {"kind": "parse", "input_hex": text.hex(), "opts": "default", "src": "reader", "api": "spans", "fast": True}}
-            # top-level spans must cover exactly the datum text: re-parse the covered bytes (single line inputs only)
-            for sp in a.get("spans", []):
-                if "s" not in sp:
+            # every span (nested ones too) must cover exactly one datum's text: no surrounding blanks, re-parsable on its own
+            # (the head of a quote shorthand covers just the shorthand characters); single line inputs only
+            for top in a.get("spans", []):
+                if "s" not in top:
                     continue
-                (l1, c1), (l2, c2) = sp["s"], sp["e"]
-                lines = text.split(b"\n")
-                if l1 == l2 and l1 - 1 < len(lines):
-                    piece = lines[l1 - 1][c1:c2]
-                    if not piece.strip() or piece != piece.strip():
-                        return {"replayed": True, "observed": {"span": sp, "covers": piece.decode("latin-1")},
-                                "witness": {"kind": "parse", "input_hex": text.hex(), "opts": "default", "src": "slice", "api": "spans", "fast": True}}
-                    one = RP.single(piece, "default", "slice")
-                    if "err" in one:
-                        return {"replayed": True, "observed": {"span": sp, "covers": piece.decode("latin-1"), "reparse": one},
-                                "witness": {"kind": "parse", "input_hex": text.hex(), "opts": "default", "src": "slice", "api": "spans", "fast": True}}
+                for sp in walk(top):
+                    (l1, c1), (l2, c2) = sp["s"], sp["e"]
+                    lines = text.split(b"\n")
+                    if l1 == l2 and 1 <= l1 <= len(lines):
+                        piece = lines[l1 - 1][c1:c2]
+                        w = {"kind": "parse", "input_hex": text.hex(), "opts": "default", "src": "slice", "api": "spans", "fast": True}
+                        if not piece.strip() or piece != piece.strip():
+                            return {"replayed": True, "observed": {"span": [sp["s"], sp["e"]], "covers": piece.decode("latin-1")}, "witness": w}
+                        if piece in (b"'", b"`", b",", b",@"):
+                            continue
+                        one = RP.single(piece, "default", "slice")
+                        if "err" in one:
+                            return {"replayed": True, "observed": {"span": [sp["s"], sp["e"]], "covers": piece.decode("latin-1"), "reparse": one}, "witness": w}
         return {"replayed": False}
     return f
 
@@ -154,7 +172,25 @@ def claim_span_points(cx, res, kf):
         def pos_idx(p):
             if isinstance(p, Ref):
                 p = eng.load(st, p.addr)
+            if not (isinstance(p, Agg) and p.fields and isinstance(p.fields[0], Int)):
+                raise NotAPosition()
             return p.fields[0].e
+        try:
+            if d[1] == "quotation":
+                sp0 = d[2][2]
+                if isinstance(sp0, Ref):
+                    sp0 = eng.load(st, sp0.addr)
+                if not isinstance(sp0, Agg):
+                    raise NotAPosition()
+                [pos_idx(x) for x in sp0.fields[:2]]
+            else:
+                [pos_idx(x) for x in (d[2][1:3] if d[1] == "primitive" else d[2][2:4])]
+        except NotAPosition:
+            v = {"what": "a %s datum's span point is not a position read from the input source at a token boundary (it is computed "
+                 "from something else, e.g. another datum's span)" % d[1], "replayed": None}
+            v.update(onm(None) or {})
+            res.violations.append(v)
+            continue
         if d[1] == "primitive":
             start, end = pos_idx(d[2][1]), pos_idx(d[2][2])
             res.must_be_unsat(pc + [z3.Not(z3.And(start == idx_ws, end == idx_end))],
